@@ -127,6 +127,14 @@ func (fc *FuncCtx) evalCall(st *State, call *ast.CallExpr) []Term {
 		fc.fail(call, "no contract for callee %s", key)
 	}
 	fc.usedContracts[key] = true
+	if fc.contract != nil {
+		for _, want := range strings.Fields(fc.contract.Opts["countcalls"]) {
+			if fn.Name() == want {
+				cur := st.ghost["calls_"+want]
+				st.ghost["calls_"+want] = mkMath("(+ " + cur.S + " 1)")
+			}
+		}
+	}
 	if fc.w.ReflectReads[key] {
 		fc.reflectReads(st, call)
 	}
